@@ -57,7 +57,7 @@ def all_objects():
     out = []
     for pid, p in PROPS.items():
         for b in p["binaries"].values():
-            for src in b["src"]:
+            for src in b.get("src", []):
                 out.append((src, b.get("san", "asan")))
     out.append(("tools/hashmerge.cpp", "plain"))
     return sorted(set(out))
@@ -81,6 +81,9 @@ def hashmerge_exe():
 
 
 def link(scr, name, b):
+    if "script" in b:   # program-level stages written in Python (run by the tooling interpreter)
+        interp = shutil.which(b.get("interp", "python3")) or "/opt/veriftools/pyvenv/bin/python3"
+        return [interp, os.path.join(VERIF, b["script"])]
     san = b.get("san", "asan")
     with cf.ThreadPoolExecutor(max_workers=8) as ex:
         objs = list(ex.map(lambda s: compile_obj(s, san), b["src"]))
@@ -114,8 +117,8 @@ def load_known(pid):
 
 # --------------------------------------------------------------------------- running stages
 def worker_cmd(exe, st, i, n, seed, budget, out, tier, datadir, known):
-    cmd = [exe, "--stage", st["name"], "--worker", "%d/%d" % (i, n), "--seed", str(seed), "--budget", str(budget),
-           "--out", out, "--data", datadir]
+    cmd = (exe if isinstance(exe, list) else [exe]) + ["--stage", st["name"], "--worker", "%d/%d" % (i, n), "--seed", str(seed), "--budget", str(budget),
+           "--out", out, "--data", datadir, "--repo", os.path.dirname(datadir.rstrip("/"))]
     if tier == "thorough":
         cmd.append("--thorough")
     if known:
@@ -190,7 +193,10 @@ def write_replay(pid, stage, f, extra=None):
 
 
 def replay_case(exe, case, datadir, extra_args=None):
-    p = subprocess.run([exe, "--replay", case, "--data", datadir, "--out", os.path.dirname(exe)] + (extra_args or []),
+    pre = exe if isinstance(exe, list) else [exe]
+    outd = os.path.join(os.path.dirname(datadir.rstrip("/")), "..", "out")
+    os.makedirs(outd, exist_ok=True)
+    p = subprocess.run(pre + ["--replay", case, "--data", datadir, "--out", outd] + (extra_args or []),
                        stdout=subprocess.PIPE, stderr=subprocess.STDOUT, env=san_env(), text=True, errors="replace")
     return p.returncode, p.stdout
 
@@ -378,6 +384,8 @@ def main():
                    classes=merged["classes"], stages=merged["stages"], regression_replays=nreg,
                    exhaustive=bool(merged["exhaustive"]) and not violations, exhaustive_subspaces=merged["exhaustive"],
                    distinct_count_capped=capped, excluded_known=merged["known_hits"], notes=merged["notes"], partial_run=partial)
+        if P.get("extra_cov"):
+            cov.update(P["extra_cov"](merged))
         ev = dict(property_id=pid, tier=a.tier, seed=a.seed, level=P["level"], coverage=cov, assumptions=P["assumptions"],
                   wall_s=round(wall, 2), violations=1 if confirmed else 0)
         if infra:
